@@ -120,13 +120,50 @@ func (a *adversary) header(kind int64, bi int) (*types.SignedHeader, string) {
 	return h, name
 }
 
-const numAdvDataKinds = 5
+const numAdvDataKinds = 7
 
 func (a *adversary) signedData(kind int64, bi int) ([]byte, string) {
 	g := a.blocks[bi]
 	paddr := a.w.Genesis.ProposerAddress
 	var sd types.SignedData
 	var name string
+	if k := kind % numAdvDataKinds; k >= 5 {
+		// altered copies of a genuine proposer-signed data blob, keeping the genuine signature and signer:
+		// what a party without any key can do with material it reads from the DA layer
+		src := g
+		if src.DBlob == nil {
+			for _, b := range a.blocks {
+				if b.DBlob != nil {
+					src = b
+					break
+				}
+			}
+		}
+		if src.DBlob == nil {
+			return nil, "no-genuine-data-to-alter"
+		}
+		var gsd types.SignedData
+		if err := gsd.UnmarshalBinary(src.DBlob); err != nil || gsd.Metadata == nil {
+			return nil, "no-genuine-data-to-alter"
+		}
+		if k == 5 {
+			name = "genuine-signed-data-relabelled-to-another-height"
+			top := a.blocks[len(a.blocks)-1].H
+			nh := uint64(bi)%top + 1
+			if nh == gsd.Metadata.Height {
+				nh = nh%top + 1
+			}
+			gsd.Metadata.Height = nh
+		} else {
+			name = "genuine-signed-data-with-metadata-stripped"
+			gsd.Metadata = nil
+		}
+		blob, err := gsd.MarshalBinary()
+		if err != nil {
+			return nil, name
+		}
+		return blob, name
+	}
 	switch kind % numAdvDataKinds {
 	case 0:
 		name = "forged-data-other-key-under-proposer-address"
